@@ -182,7 +182,11 @@ fn judge_circuit(st: &mut Stats, c: &Circuit) {
 /// values whose float arithmetic is exact, so the float helpers can be judged exactly too
 fn helper_values() -> Vec<(Scalar4, Zw)> {
     let mk = |c: [i64; 4], p: i32| (Scalar4::new(c, p), Zw::new(c, 2 * p));
-    vec![mk([0, 0, 0, 0], 0), mk([1, 0, 0, 0], 0), mk([-1, 0, 0, 0], 0), mk([0, 0, 1, 0], 0), mk([2, 0, 0, 0], 0), mk([1, 0, 0, 0], -1), mk([0, 1, 0, 0], 0), mk([0, 1, 0, -1], -1)]
+    let mut v = vec![mk([0, 0, 0, 0], 0), mk([1, 0, 0, 0], 0), mk([-1, 0, 0, 0], 0), mk([0, 0, 1, 0], 0), mk([2, 0, 0, 0], 0), mk([1, 0, 0, 0], -1), mk([0, 1, 0, 0], 0), mk([0, 1, 0, -1], -1)];
+    // last: a zero that carries the approx flag (what a cancellation of approximate values leaves behind); it is zero
+    // for every helper, only `==` (which compares flags) is not judged on it
+    v.push((Scalar4::real(0.0), Zw::new([0, 0, 0, 0], 0)));
+    v
 }
 
 fn helpers(st: &mut Stats, quick: bool) {
@@ -218,8 +222,13 @@ fn helpers(st: &mut Stats, quick: bool) {
             let want_prop = sa == sb && tensor_prop(&ea, &eb, 0.0);
             let want_eq = sa == sb && tensor_eq(&ea, &eb, 0.0);
             let wit = || json!({"kind": "helper", "shape_a": sa, "a": ia, "shape_b": sb, "b": ib, "values": "index into [0,1,-1,i,2,1/2,omega,sqrt2/2... see helper_values()]"});
+            // a flagged zero next to non-zero entries: the verdict then rests on Scalar4's `==`, which compares flags as well
+            // (a choice of the library, not fixed by the property); judged where one side is entirely zero
+            let flagged = ia.iter().chain(ib.iter()).any(|&i| i == nv - 1);
+            let judged = !flagged || ea.iter().all(|x| x.is_zero()) || eb.iter().all(|x| x.is_zero());
             match guarded(|| Tensor4::scalar_eq(&ta, &tb)) {
                 Err(p) => st.violation(Violation { sig: "scalar_eq|panic".into(), detail: p, witness: wit() }),
+                Ok(_) if !judged => st.inc("flagged_zero_pairs_not_judged"),
                 Ok(got) => {
                     if got != want_prop {
                         st.violation(Violation { sig: format!("scalar_eq|wrong|got={}", got), detail: format!("Tensor4::scalar_eq = {}, definition says {}", got, want_prop), witness: wit() });
@@ -228,7 +237,7 @@ fn helpers(st: &mut Stats, quick: bool) {
                     }
                 }
             }
-            if (ta == tb) != want_eq {
+            if !flagged && (ta == tb) != want_eq {
                 st.violation(Violation { sig: "tensor4-eq|wrong".into(), detail: format!("== gives {}, definition says {}", ta == tb, want_eq), witness: wit() });
             }
             if float_ok_a && ib.iter().all(|&i| i < 6) {
